@@ -11,9 +11,9 @@ use std::{
 use wac_graph::{
     types::{
         BorrowedPackageKey, DefinedType, Enum, ExternKind, Flags, FuncKind, FuncType, FuncTypeId,
-        Interface, InterfaceId, ItemKind, Package, PackageKey, PrimitiveType, Record, Resource,
-        ResourceAlias, ResourceId, SubtypeChecker, Type, UsedType, ValueType, Variant, World,
-        WorldId,
+        Interface, InterfaceId, ItemKind, NameMap, NameMapNoIntern, Package, PackageKey,
+        PrimitiveType, Record, Resource, ResourceAlias, ResourceId, SubtypeChecker, Type, UsedType,
+        ValueType, Variant, World, WorldId,
     },
     CompositionGraph, DefineTypeError, EncodeError, EncodeOptions, ExportError, ImportError,
     InstantiationArgumentError, NodeId, NodeKind, PackageId, Processor,
@@ -2697,17 +2697,18 @@ impl<'a> AstResolver<'a> {
         world: WorldId,
     ) -> ResolutionResult<()> {
         let world = &state.graph.types()[world];
-        // The interfaces imported implicitly through uses.
-        let implicit_imported_interfaces = world.implicit_imported_interfaces(state.graph.types());
+        // The explicit imports of the world and the interfaces imported implicitly
+        // through uses, with semver-compatible lookup of names (as `validate_target`
+        // in `wac-types` does for an encoded component).
+        let world_imports = world.all_imports(state.graph.types());
         let mut cache = Default::default();
         let mut checker = SubtypeChecker::new(&mut cache);
 
         // The output is allowed to import a subset of the world's imports
         checker.invert();
         for (name, item_kind, import_node) in state.graph.imports() {
-            let expected = implicit_imported_interfaces
-                .get(name)
-                .or_else(|| world.imports.get(name))
+            let expected = world_imports
+                .get(name, &NameMapNoIntern)
                 .ok_or_else(|| Error::ImportNotInTarget {
                     name: name.to_owned(),
                     world: path.string.to_owned(),
@@ -2732,18 +2733,26 @@ impl<'a> AstResolver<'a> {
 
         checker.revert();
 
+        let exports = state
+            .graph
+            .exports()
+            .fold(NameMap::default(), |mut map, (name, node)| {
+                // The unwrap here is safe because we allow shadowing
+                map.insert(name, &mut NameMapNoIntern, true, node).unwrap();
+                map
+            });
+
         // The output must export every export in the world
         for (name, expected) in &world.exports {
-            let export =
-                state
-                    .graph
-                    .get_export(name)
-                    .ok_or_else(|| Error::MissingTargetExport {
-                        name: name.clone(),
-                        world: path.string.to_owned(),
-                        kind: expected.desc(state.graph.types()).to_string(),
-                        span: path.span,
-                    })?;
+            let export = exports
+                .get(name, &NameMapNoIntern)
+                .copied()
+                .ok_or_else(|| Error::MissingTargetExport {
+                    name: name.clone(),
+                    world: path.string.to_owned(),
+                    kind: expected.desc(state.graph.types()).to_string(),
+                    span: path.span,
+                })?;
 
             checker
                 .is_subtype(
